@@ -1,4 +1,5 @@
 import Gmars.Driver.ApiRun
+import Gmars.Driver.TextRun
 open Gmars Gmars.Driver
 
 structure Global where
@@ -8,6 +9,7 @@ structure Global where
   nCases : Nat := 0
   nOps : Nat := 0
   nNontrivial : Nat := 0
+  text : TextStats := {}
 
 partial def loop (h : IO.FS.Stream) (out : IO.FS.Stream) (g : Global) : IO Global := do
   let line ← h.getLine
@@ -32,6 +34,10 @@ partial def loop (h : IO.FS.Stream) (out : IO.FS.Stream) (g : Global) : IO Globa
         | none => g.dumps
       loop h out { g with ctx := none, dumps, nCases := g.nCases + 1, nOps := g.nOps + st.nOps,
                           nNontrivial := g.nNontrivial + (if st.nontrivial then 1 else 0) }
+  else if line.startsWith "L " || line.startsWith "K " then
+    let (outs, upd) := if line.startsWith "L " then runLoadLine line else runListingLine line
+    for o in outs do out.putStrLn o
+    loop h out { g with text := upd g.text }
   else if line.startsWith "P " then
     -- P <id1> <id2> <k>
     match line.splitOn " " with
@@ -53,4 +59,4 @@ def main : IO Unit := do
   let stdin ← IO.getStdin
   let stdout ← IO.getStdout
   let g ← loop stdin stdout {}
-  stdout.putStrLn s!"STATS cases={g.nCases} ops={g.nOps} nontrivial={g.nNontrivial}"
+  stdout.putStrLn s!"STATS cases={g.nCases + g.text.cases} ops={g.nOps + g.text.cases} nontrivial={g.nNontrivial + g.text.nontrivial} skipped={g.text.skipped} accepted={g.text.accepted} rejected={g.text.rejected}"
